@@ -33,7 +33,18 @@ def gen_cases(seed, tier):
                     if tier == 'quick' and rows >= 16 and (k % 3):
                         continue
                     nth = [0, 1, 2, 3, 7, 16][k % 6]
-                    cs.append(('mt', rows, cols, dim, b, nth, rng.next() & 0xFFFFFFFF))
+                    cs.append(('mt', rows, cols, dim, b, nth, rng.next() & 0xFFFFFFFF, 0, 0))
+    # structured matrices (equal rows, rows A,B,A,A, two-valued, zero) and OpenMP delivery environments
+    for rows in ([4, 8, 16] if tier == 'quick' else [2, 4, 8, 16, 32]):
+        for cols, dim in ((1, 1), (3, 1), (9, 1), (2, 3)):
+            for pat in (1, 2, 3, 4, 5):
+                k += 1
+                cs.append(('mt', rows, cols, dim, [0, 2, 1, cols + 1][k % 4], [1, 2, 3, 0][k % 4], rng.next() & 0xFFFFFFFF, pat, 0))
+    for rows in (2, 8, 16):
+        for cols in (0, 3, 9):
+            for env in (1, 2, 3):
+                k += 1
+                cs.append(('mt', rows, cols, [1, 3][k % 2], [0, 2, 4][k % 3], [2, 3, 7, 16][k % 4], rng.next() & 0xFFFFFFFF, 0, env))
     return cs
 
 
